@@ -124,9 +124,19 @@ func evalC10(pos string, d []byte) (vs []*Violation) {
 				add("ParseOneContact", "q-out-of-range-flagged", cl, fmt.Sprintf("q=%s: Q unset but ParamErr not set", d))
 			}
 		}
-	case "port", "port-user", "port-params", "port-hdrs":
+	case "port", "port-user", "port-params", "port-hdrs", "port-digitpass", "port-digitpass6", "port-numpass", "port-userparam", "port-tel":
 		var s string
 		switch pos {
+		case "port-digitpass":
+			s = "sip:alice:1a@example.com:" + string(d)
+		case "port-digitpass6":
+			s = "sips:u:65535x@[::1]:" + string(d) + ";lr"
+		case "port-numpass":
+			s = "sip:u:123@h:" + string(d)
+		case "port-userparam":
+			s = "sip:u;x=1:9z@h:" + string(d) + "?a=1"
+		case "port-tel":
+			s = "SIP:7:8@9:" + string(d)
 		case "port":
 			s = "sip:h:" + string(d)
 		case "port-user":
@@ -230,7 +240,7 @@ func evalC10q(s []byte) (vs []*Violation, valid bool) {
 	return
 }
 
-var c10Positions = []string{"cseq", "clen", "expires", "c-expires", "q-int", "port", "port-user", "port-params", "port-hdrs"}
+var c10Positions = []string{"cseq", "clen", "expires", "c-expires", "q-int", "port", "port-user", "port-params", "port-hdrs", "port-digitpass", "port-digitpass6", "port-numpass", "port-userparam", "port-tel"}
 
 func c10Boundaries() []*big.Int {
 	var bs []*big.Int
